@@ -12,7 +12,7 @@ from core import q
 warnings.simplefilter('ignore')
 
 REQUIRED = ['session_balanced', 'session_atoms_good', 'moveTo_closed', 'session_shutter_closed', 'farcallList_balanced',
-            'shipped_headers_ok', 'session_rotation_off', 'exit_rotation_off', 'shipped_headers_rotation_off']
+            'shipped_headers_ok', 'session_rotation_off', 'exit_rotation_off', 'shipped_headers_rotation_off', 'session_vars_declared', 'shipped_headers_var_free']
 RULE = ('stream session: random operation trees (depth <= 4, <= 40 operations: writes of closed paths incl. builder-made ones, '
         'move_to with None coordinates / bad speeds, homing, nested REPEAT/FOR/axis-rotation blocks incl. rejected counts and '
         'undeclared variables, dwell with zero/negative/None, comments, set_home, dvar, load/farcall/bufferedcall/remove with '
@@ -33,7 +33,8 @@ CLAIM = {
             'flattening of the emitted structure), every atom is a known instruction with positive feeds, every move emitted by '
             'move_to is executed with the shutter closed from any state, the shutter is closed at the end when all written paths are '
             'closed, farcall_list leaves the loaded set as it found it (also when it fails at file k), and in program order the G84 state '
-            'after the file is off for any nesting of rotation blocks and any crash point (session_rotation_off). The full well-formedness '
+            'after the file is off for any nesting of rotation blocks and any crash point (session_rotation_off), and every FOR variable '
+            'has been declared by a hoisted DVAR line earlier in the text (session_vars_declared). The full well-formedness '
             'predicate (variables, calls, G84, shutter at positioning moves) is additionally decided in Lean on the bytes the real '
             'context manager wrote, for generated histories with crashes, every run.',
     'note': 'Trusted: Lean kernel/Mathlib, Spec/Controller.lean + Spec/WF.lean as the meaning of well-formed, the model of the '
